@@ -169,6 +169,17 @@ func (c *Ctx) flush() {
 			} else {
 				c.TracesOK++
 			}
+		case "model-host":
+			// the model may answer with host terms: resolve the ones we can with Go's own
+			// functions, skip the comparison when an unresolved one remains
+			ml, ok := resolveHost(line)
+			if !ok {
+				c.count("host-dependent(not compared)")
+			} else if ml != p.impl {
+				c.fail(Failure{Kind: "correspondence", Op: p.op, Impl: p.impl, Model: ml})
+			} else {
+				c.TracesOK++
+			}
 		case "errprefix":
 			// accept/reject only: the model must reject too (any code)
 			if !strings.HasPrefix(line, "err ") {
